@@ -80,7 +80,23 @@ class GotranCCodePrinter(C99CodePrinter):
     def _print_Float(self, flt):
         return self._print(str(float(flt)))
 
+    def _print_Integer(self, expr):
+        # An integer literal that does not fit in an int is a double
+        if abs(expr.p) > INT_MAX:
+            return self._print(sympy.Float(expr, 17))
+        return super()._print_Integer(expr)
+
+    def _print_Add(self, expr, **kwargs):
+        # Integer arithmetic that overflows an int, e.g 2147483647 + 1
+        if _is_integer_arithmetic(expr) and abs(expr.doit()) > INT_MAX:
+            return self._print(sympy.Float(expr.doit(), 17))
+        return super()._print_Add(expr, **kwargs)
+
     def _print_Mul(self, expr):
+        # A product of integer literals is kept as it is written, e.g. 100000*100000,
+        # and C would evaluate it with int arithmetic (overflow)
+        if _is_integer_arithmetic(expr) and abs(expr.doit()) > INT_MAX:
+            return self._print(sympy.Float(expr.doit(), 17))
         # A quotient of integer literals, e.g. 1/4, is kept as the unevaluated
         # product 1*4**(-1). Print integer denominators as floating point
         # numbers, otherwise C would perform integer division (1/4 == 0).
